@@ -45,5 +45,14 @@ for k in ("quick", "thorough"):
         r = dict(r); r["bounds"] = "flush lemma shared with C07 (a reply never follows the Rflush of its request; every Tflush answered): " + r["bounds"]
         c03[k].append(r)
 json.dump(c03, open("C03.json", "w"), indent=1)
+# C04's "told of the destruction of every fid exactly once" includes fids that a request is creating while the
+# connection goes away: one disconnect workload of C11 (a Twalk to a new fid in flight at the hang-up) is part of C04
+c04 = json.load(open("C04.json")); c11 = json.load(open("C11.json"))
+for k in ("quick", "thorough"):
+    extra = [r for r in c11[k] if r["harness"] == "vxH11" and r["args"][:3] == ["1", "1", "2"]][:1]
+    for r in extra:
+        r = dict(r); r["bounds"] = "destruction-exactly-once lemma shared with C11: " + r["bounds"]
+        c04[k].append(r)
+json.dump(c04, open("C04.json", "w"), indent=1)
 PY
 echo props regenerated
